@@ -1039,6 +1039,16 @@ class FlowIRExperimentConfiguration:
         try:
             if (self._concrete != FlowIRExperimentConfiguration._NoFlowIR) or (len(out_errors) == 0):
                 out_errors.extend(self._concrete.validate(top_level_folders=self.top_level_folders))
+
+                # VV: The replicated FlowIR is re-built out of the fields that FlowIR knows about. Unknown top-level keys
+                # and the overrides of the platforms that are not active exist only in the original (unreplicated) FlowIR
+                unreplicated = getattr(self, '_unreplicated', None)
+                if self._is_primitive is False and isinstance(
+                        unreplicated, experiment.model.frontends.flowir.FlowIRConcrete):
+                    known = set(str(e) for e in out_errors)
+                    for e in unreplicated.validate(top_level_folders=self.top_level_folders):
+                        if str(e) not in known:
+                            out_errors.append(e)
         except Exception as e:
             self.log.debug(f"Unexpected error while validating {e} -- traceback:\n{traceback.format_exc()}")
             out_errors.append(e)
